@@ -518,6 +518,11 @@ def make_buffer(ctor):
         return Buffer(capacity=v), BufModel(capacity=v)
     if kind == "positional":
         return Buffer(v), BufModel(capacity=v)
+    if kind == "both":
+        # both arguments: the data decides the size
+        return Buffer(capacity=v[0], data=v[1]), BufModel(data=v[1])
+    if kind == "both-positional":
+        return Buffer(v[0], v[1]), BufModel(data=v[1])
     return Buffer(data=v), BufModel(data=v)
 
 
@@ -621,7 +626,9 @@ def buffer_case(ctx, case):
     except Exception:  # noqa
         ctx.case(("buf", repr(case)), nontrivial=False, classes=["buffer:ctor-rejected"])
         return
-    if ctor[0] != "data" and ctor[1] < 0:
+    if ctor[0] in ("both", "both-positional"):
+        ctor = (ctor[0], tuple(ctor[1]))
+    if ctor[0] in ("capacity", "positional") and ctor[1] < 0:
         # an implementation may define a negative capacity as it likes; only the sanitizers judge what follows
         for name, arg in case["ops"]:
             try:
@@ -659,6 +666,7 @@ def buffer_machine(ctx, examples, shard):
     ctor = st.one_of(
         st.tuples(st.just("capacity"), st.integers(0, 64)), st.tuples(st.just("capacity"), st.integers(0, 64)), st.tuples(st.just("positional"), st.integers(0, 16)),
         st.tuples(st.just("data"), st.binary(max_size=64)), st.tuples(st.just("data"), st.binary(max_size=64)), st.tuples(st.just("capacity"), st.sampled_from([-1, -(1 << 31), -(1 << 63), 1 << 62, (1 << 63) - 1, 1 << 64])),
+        st.tuples(st.sampled_from(["both", "both-positional"]), st.tuples(st.integers(0, 80), st.binary(max_size=64))),
     )
     strat = st.fixed_dictionaries({"kind": st.just("buffer"), "ctor": ctor, "ops": st.lists(op, min_size=1, max_size=40)})
 
